@@ -34,7 +34,7 @@ def _ordered(ctx, rel, name, start, needles, stop=None):
 
 def _facts(ctx):
     # the step granularity of the model: every LRUCache method and done closure is one critical section
-    heads = [r"func \(c \*LRUCache\) Get\([^)]*\) \([^)]*\) \{", r"func \(c \*LRUCache\) Add\([^)]*\) \([^)]*\) \{",
+    heads = [r"func \(c \*LRUCache\) Get\(key string\) \(.*\) \{", r"func \(c \*LRUCache\) Add\(key string, value any\) \(.*\) \{",
              r"return func\(\) \{"]
     for h in heads:
         _ordered(ctx, "util/cacheutil/lrucache.go", "lock-first:" + h[:30], h,
